@@ -1005,9 +1005,14 @@ pub fn mon_c16(out: &mut Out, l: &str, r: &str) {
     if r2.data == reply2 {
         out.check(got2 == "ok RHR:CAFE", || format!("call after an abandoned call did not perform a normal exchange: `{got2}`"), l);
     } else if kind == "tcp" {
-        // something else arrives first: a late reply to the abandoned request
-        if let Some(MbapItem::Frame(t, _, _)) = spec::split_mbap(&r2.data).first() {
-            if *t != t2 {
+        // something else arrives first.  A *late reply to the abandoned request* is a complete,
+        // aligned frame under that request's own header, followed by exactly this call's reply;
+        // the residue of a reply that the abandoned call had already begun to read is not one
+        // (its first part went with the cleared receive buffer, the rest is misaligned junk for
+        // which only the "never a foreign answer" clause below is demanded)
+        let items = spec::split_mbap(&r2.data);
+        if let [MbapItem::Frame(t, u, _), MbapItem::Frame(tb, ub, pb)] = items.as_slice() {
+            if (*t, *u) == (t1, u1) && t1 != t2 && (*tb, *ub) == (t2, u2) && pb == &[0x03, 0x02, 0xCA, 0xFE] {
                 out.check(got2.starts_with("hm "), || format!("late reply to the abandoned request was not reported as a header mismatch: `{got2}`"), l);
             }
         }
@@ -1049,6 +1054,25 @@ pub fn gen_c20(out: &mut Out, rng: &mut Rng, thorough: bool) {
                     };
                     for (op, pdu) in ops.iter().zip(pdus.iter()) {
                         monitor_line(out, &format!("{head} | typed {} r=d{}", op.tok(), hex_raw(&frame(kind, 0, unit, pdu))));
+                    }
+                }
+            }
+            // the largest counts a caller can ask for: far beyond what any reply can hold
+            for cnt in [2000u16, 2001, 2008, 65528, 65529, 65530, 65534, 65535] {
+                for have in [0usize, 8, 2000, 2008] {
+                    let bits = rng.bits(have);
+                    let ws = rng.words(have.min(125));
+                    let a = rng.u16();
+                    let cases: Vec<(TypedOp, Response)> = vec![
+                        (TypedOp::Rc(a, cnt), Response::ReadCoils(bits.clone())),
+                        (TypedOp::Rdi(a, cnt), Response::ReadDiscreteInputs(bits)),
+                        (TypedOp::Rhr(a, cnt), Response::ReadHoldingRegisters(ws.clone())),
+                        (TypedOp::Rir(a, cnt), Response::ReadInputRegisters(ws.clone())),
+                        (TypedOp::Rwm(a, cnt, 0, vec![1]), Response::ReadWriteMultipleRegisters(ws)),
+                    ];
+                    for (op, rsp) in cases {
+                        let pdu = spec::response_bytes(&rsp).unwrap();
+                        monitor_line(out, &format!("{head} | typed {} r=d{}", op.tok(), hex_raw(&frame(kind, 0, unit, &pdu))));
                     }
                 }
             }
@@ -1325,6 +1349,30 @@ pub fn gen_c02(out: &mut Out, rng: &mut Rng, thorough: bool) {
             format!("R={}", response(&rsp))
         };
         monitor_line(out, &format!("srv {kind} svc={svc} r=d{}", hex_raw(&reqf)));
+    }
+    // every variable-size response at and just below the PDU limit (253 bytes), both framings
+    for kind in ["tcp", "rtu"] {
+        let unit = rng.u8();
+        let mut cases: Vec<(Request<'static>, Response)> = vec![];
+        for bits in [1999usize, 2000, 2001, 2007, 2008] {
+            cases.push((Request::ReadCoils(0, 2000), Response::ReadCoils(rng.bits(bits))));
+            cases.push((Request::ReadDiscreteInputs(0, 2000), Response::ReadDiscreteInputs(rng.bits(bits))));
+        }
+        for regs in [124usize, 125] {
+            cases.push((Request::ReadHoldingRegisters(0, 125), Response::ReadHoldingRegisters(rng.words(regs))));
+            cases.push((Request::ReadInputRegisters(0, 125), Response::ReadInputRegisters(rng.words(regs))));
+            cases.push((
+                Request::ReadWriteMultipleRegisters(0, 125, 0, Cow::Owned(vec![1])),
+                Response::ReadWriteMultipleRegisters(rng.words(regs)),
+            ));
+        }
+        for extra in [247usize, 248, 249] {
+            cases.push((Request::ReportServerId, Response::ReportServerId(rng.u8(), rng.bool(), rng.bytes(extra))));
+        }
+        for (req, rsp) in cases {
+            let reqf = frame(kind, 0, unit, &spec::request_bytes(&req).unwrap());
+            monitor_line(out, &format!("srv {kind} svc=R={} r=d{}", response(&rsp), hex_raw(&reqf)));
+        }
     }
     // all 256 exception codes
     for kind in ["tcp", "rtu"] {
